@@ -630,7 +630,7 @@ func (d *BlobberAllocation) challengeRewardOnFinalization(timeUnit time.Duration
 
 	move := currency.Coin((dtu / rdtu) * float64(d.ChallengePoolIntegralValue))
 
-	if alloc.Stats.UsedSize > 0 && cp.Balance > 0 && passRate > 0 && d.Stats != nil {
+	if alloc.Stats.UsedSize > 0 && cp.Balance > 0 && passRate > 0 && d.Stats != nil && sp.acceptsRewards() {
 		reward, err := currency.MultFloat64(move, passRate)
 		if err != nil {
 			return payment, err
@@ -720,6 +720,9 @@ func (d *BlobberAllocation) challengePenaltyOnFinalization(conf *Config, alloc *
 }
 
 func (d *BlobberAllocation) payCancellationCharge(alloc *storageAllocationBase, sp *stakePool, balances chainstate.StateContextI, sc *StorageSmartContract, passRate float64, totalWritePrice, cancellationCharge currency.Coin) (currency.Coin, error) {
+	if !sp.acceptsRewards() {
+		return 0, nil // DistributeRewards credits nothing, so nothing is charged
+	}
 	blobberWritePriceWeight := float64(d.Terms.WritePrice) / float64(totalWritePrice)
 	reward, _ := currency.Float64ToCoin(float64(cancellationCharge) * blobberWritePriceWeight * passRate)
 
